@@ -12,8 +12,8 @@ Oracle scope
              defined names mean their cell / range; utils.resolve_ranges /
              resolve_address / col2num / num2col agree with base-26
              arithmetic.
-  refused  : whole-column / whole-row ranges inside evaluation, 3-D
-             references, unqualified ranges on a non-default sheet of a model
+  refused  : 3-D references, whole-column references in the quick tier
+             (one model costs a million cells; thorough only), unqualified ranges on a non-default sheet of a model
              built by read_and_parse_dict (that reader takes one default
              sheet for all formulas; multi-sheet cases are loaded from .xlsx).
 """
@@ -23,6 +23,7 @@ from .. import lib
 from ..gen import workbooks as W
 
 PROPERTY = 'C03'
+WORKER_MEM_GB = 12          # a whole-column reference makes 1 048 576 cells
 LEVEL = 'exploration'
 RULE = ('generated multi-sheet workbooks (real .xlsx through the reader) and '
         'dict-built models; every target cell x $-spelling x qualification x '
@@ -362,6 +363,61 @@ def run_gap(direction, g, ctx):
     del mid
 
 
+# ---- (d2) whole-row / whole-column references ------------------------------------
+WHOLE_ROW = ['2:2', '$2:$2', '$2:2', '2:$2', '2:3', '$2:$3', '$2:3',
+             'Sheet1!2:2', 'Sheet1!$2:$2', "'Sheet1'!$2:$3"]
+WHOLE_COL = ['B:B', '$B:$B', 'Sheet1!$B:B']
+
+
+def run_whole(kind, ctx):
+    """Every $-spelling of a whole-row (thorough: whole-column) reference
+    denotes the same cells as the plain spelling."""
+    if kind == 'row':
+        data = {'A2': 1, 'B2': 2, 'D2': 4, 'A3': 10, 'C3': 30}
+        spellings = WHOLE_ROW
+    else:
+        data = {'B1': 1, 'B2': 2, 'B4': 4}
+        spellings = WHOLE_COL
+    for sp in spellings:
+        cells = {'Sheet1!' + k: v for k, v in data.items()}
+        body = sp.split('!')[-1].replace('$', '')
+        lo, hi = body.split(':')
+        if kind == 'row':
+            vals = [v for k, v in sorted(data.items())
+                    if int(lo) <= int(k[1:]) <= int(hi)]
+            at = ['Sheet1!F10', 'Sheet1!F11']
+        else:
+            vals = [v for k, v in sorted(data.items())]
+            at = ['Sheet1!D1', 'Sheet1!D2']
+        cells[at[0]] = '=SUM(%s)' % sp
+        cells[at[1]] = '=COUNTA(%s)' % sp
+        tags = ['range', 'whole:' + kind]
+        if '$' in sp:
+            tags.append('ref:dollar')
+        inputs = {'family': 'whole', 'kind': kind}
+        try:
+            with lib.time_limit(120):
+                model = lib.compile_dict(cells)
+        except Exception as exc:  # noqa: BLE001
+            ctx.fail('C03/whole/%s/%s/compile' % (kind, sp), tags, inputs,
+                     'compiles', lib.exc_obs(exc))
+            continue
+        ev = lib.Evaluator(model)
+        for a, func in zip(at, ('SUM', 'COUNTA')):
+            try:
+                with lib.time_limit(120):
+                    got = lib.norm(ev.evaluate(a))
+            except lib.CaseTimeout:
+                got = 'timeout'
+            except Exception as exc:  # noqa: BLE001
+                got = lib.exc_obs(exc)
+            ctx.check('C03/whole/%s/%s(%s)' % (kind, func, sp), got,
+                      range_expect(vals, func), tags + ['fn:' + func], inputs,
+                      True)
+        del model, ev
+        lib.clear_caches()
+
+
 # ---- (e) defined names ----------------------------------------------------------
 def names_book():
     titles = ['Sheet1', 'My Sheet']
@@ -489,6 +545,9 @@ def plan(tier):
         for g in GAPS:
             shards.append({'family': 'gap', 'direction': direction, 'g': g})
     shards.append({'family': 'names'})
+    shards.append({'family': 'whole', 'kind': 'row', 'weight': 9})
+    if tier == 'thorough':
+        shards.append({'family': 'whole', 'kind': 'column', 'weight': 20})
     shards.append({'family': 'utils', 'part': 'columns'})
     shards.append({'family': 'utils', 'part': 'resolve'})
     return shards
@@ -515,6 +574,8 @@ def run_shard(shard, ctx):
         run_gap(shard['direction'], shard['g'], ctx)
     elif f == 'names':
         run_names(ctx)
+    elif f == 'whole':
+        run_whole(shard['kind'], ctx)
     elif f == 'utils':
         run_utils(shard['part'], ctx)
 
@@ -555,7 +616,7 @@ def replay(inputs, ctx):
     f = inputs['family']
     shard = {'family': f}
     for k in ('cfg', 'host', 'maxlen', 'pattern', 'rect', 'max_cells',
-              'direction', 'g', 'part'):
+              'direction', 'g', 'part', 'kind'):
         if k in inputs:
             shard[k] = inputs[k]
     key = inputs.get('key')
